@@ -653,29 +653,21 @@ REFINED = [
     "(start index 1, no exit: defect 754b193) and the off-by-one of mutant m04 break the theorems; also "
     "are_slice_low_bits_nonzero (the floor correction of IBig >> n on a heap magnitude: the `n_words >= len` exit, "
     "`words[..n_words].iter().any(..)`, the checked `words[n_words]`, `ones_word(n % W)`) = areSliceLowBitsNonzero "
-    "(gen_are_slice_low_bits_nonzero; mutants m03 / m18 now also break this theorem)",
-    "mixed UBig/IBig `|` and `^` (8 + 8 value/reference impls): the regenerated forwarding bodies forward_ubig_ibig_binop_to_repr / "
-    "forward_ibig_ubig_binop_to_repr (the UBig operand enters the core as (Sign::Positive, magnitude), operand order kept) composed "
-    "with the regenerated sign tables impl_ibig_bitor / impl_ibig_bitxor = OR / XOR of the two values (Props/GenBitsMixed."
-    "gen_mixed_or_xor); the hand model the driver runs for ui.or/iu.or/ui.xor/iu.xor = the same, canonical (mixed_or_xor)",
-    "shift_ops.rs heap arms as REGENERATED text (Gen/ShiftHeap.lean, vlib/extract_shiftheap.py): shl_one_spilled, shl_dword_spilled, "
-    "shl_large_ref, shl_large, shr_large — Buffer::allocate requests (checked usize arithmetic), push / push_zeros / push_slice / "
-    "push_zeros_front / erase_front, the calls of the regenerated shl_in_place / shr_in_place (on `&mut buffer` and on the sub-slice "
-    "`&mut buffer[shift_words..]`) and of math::shl_dword, the capacity branch of shl_large (theorem for EVERY capacity), the early "
-    "return of shr_large, Repr::from_buffer — EQUAL to shlDword's spilled arms / shlLarge / shrLarge (Props/GenShiftHeap.lean); "
-    "shr_large_ref (slice-pattern match) stays hand-mirrored (proved equal to shrLarge's value in Props/C09.shr_exact)",
-    "bits.rs heap arms of set_bit / clear_high_bits as REGENERATED text (Gen/BitsHeap.lean): with_bit_dword_spilled, with_bit_large "
-    "(`buffer[idx] |= …` as a checked access, the extend arm with ensure_capacity / push_zeros(idx - len) / push), "
-    "clear_high_bits_large (ceil_div, the `n_words > len` exit, truncate, `*last &= ones_word(..)`) — EQUAL to TRepr.setBit's arms / "
-    "clearHighBitsLarge (Props/GenBitsHeap.lean)",
-    "bits.rs word loops of & | ^ and_not as REGENERATED text (Gen/BitOpsHeap.lean): bitand_large (truncate to the shorter operand, `&=` "
-    "over the zip), bitor_large / bitxor_large (`|=` / `^=` over the zip, `push_slice(&rhs[buffer.len()..])` for a longer rhs), "
-    "and_not_large (`&= !y`), bitor/bitxor/and_not_large_dword (lowest_dword_mut) — EQUAL to zipAnd / zipOr / zipXor / zipAndNot / "
-    "opLargeDword, i.e. to the heap/heap arms of TRepr.bitand/bitor/bitxor/andNot (Props/GenBitOpsHeap.lean)",
+    "(gen_are_slice_low_bits_nonzero; mutants m03 / m18 now also break this theorem); the `RefLarge` arms of TypedReprRef::bit "
+    "(`idx < len && words[idx] & 1 << (n % W) != 0`) and TypedReprRef::bit_len (`len * W - last.leading_zeros()`) = the heap arms of "
+    "TRepr.bit / TRepr.bitLen (gen_bit_large, gen_bit_len_large; mutant m16 now also breaks a theorem); the `RefLarge` arms of "
+    "count_ones (checked usize sum), is_power_of_two (`words[..len-1]` all zero && top word a power of two) = TRepr.countOnes / "
+    "TRepr.isPow2 (gen_count_ones_large, gen_is_power_of_two_large); count_zeros (always Some; the checked subtraction of the top "
+    "word's leading zeros never underflows because popcount <= bit length) = TRepr.countZeros (gen_count_zeros_large)",
     "the driver's evaluation of the specification for huge usize arguments (fastSpecShr, fastSpecBit, fastDivPow2, fastModPow2, "
     "fastClearBit) = the specification, all arguments",
 ]
-FRONTIER = []
+FRONTIER = [
+    "Tie A only (every clause of the property has its full theorem about the executed model): next_power_of_two_large (iterator "
+    "`skip_while`, outside the translators' subset), the heap arm of Repr::ones and the `match (self, rhs)` dispatch of the four "
+    "unsigned operator impls (lowest_dword shortcuts, `len0 <= len1` operand choice) are hand-mirrored — theorems about the hand model + "
+    "correspondence — not regenerated from the source text",
+]
 
 EXPLANATION = ("Theorems (all W >= 1, all lengths, canonical operands): the IBig sign tables composed with the unsigned word loops "
                "and add_one/sub_one produce, bit for bit (Mathlib Int.testBit), the AND/OR/XOR/NOT of the two's-complement "
@@ -691,6 +683,11 @@ EXPLANATION = ("Theorems (all W >= 1, all lengths, canonical operands): the IBig
                "mirrors of shift.rs (bit model / division model) are proved to be one model; the driver evaluates the specification for "
                "counts up to usize::MAX through guarded functions proved equal to it; for a count beyond the operand the required "
                "results (0 / -1 / the operand / the sign bit) are stated as a theorem (beyond_the_length). "
+"Round 5: the word loops of shift.rs, the heap arms of the shifts, set_bit, clear_high_bits, the & | ^ and_not loops, the "
+               "trailing scans and the floor-correction test are regenerated from the Rust text (loops as folds selected by the loop header, "
+               "slice accesses checked, usize arithmetic checked) and proved equal to the model's definitions; the primitive-operand and "
+               "mixed UBig/IBig macro bodies are regenerated and proved to compute the operator on the converted values; mixed | and ^ "
+               "now have their theorem (mixed_or_xor). "
                "For the three defects repaired during this work (754b193, 94ebcdb, 283f2ad) a separately kept model of the old "
                "code is proved correct exactly outside the defect class and wrong on the witness.")
 ASSUMPTIONS = ["machine-word primitives (&,|,^,!,<<,>>, leading/trailing_zeros, count_ones, checked_next_power_of_two) "
@@ -729,12 +726,16 @@ THEOREMS = ["Dashu.Props.C09." + n for n in [
     "Dashu.Props.GenScans." + n for n in ["trailing_zeros_eq", "trailing_ones_eq", "tz_scan", "gen_trailing_zeros_large", "to_scan",
                                           "gen_trailing_ones_large", "gen_trailing_zeros_large_shifted_by_one",
                                           "gen_trailing_zeros_large_shifted_by_one_empty",
-                                          "gen_are_slice_low_bits_nonzero"]] + [
+                                          "gen_are_slice_low_bits_nonzero", "gen_bit_large", "gen_bit_len_large",
+                                          "sum_checked_eq", "gen_count_ones_large", "gen_count_zeros_large_partial", "gen_count_zeros_large",
+                                          "gen_is_power_of_two_large"]] + [
     "Dashu.Props.GenBitsMixed." + n for n in ["core_or", "core_xor", "gen_mixed_or_xor", "ubig_as_ibig", "mixed_or_xor"]] + [
     "Dashu.Props.C09." + n for n in ["ibig_trailing_zeros_bits", "ibig_trailing_ones_bits"]] + [
     "Dashu.Props.GenShiftHeap." + n for n in ["gen_shl_one_spilled", "gen_shl_dword_spilled", "gen_shl_dword_spilled_arms",
-                                              "gen_shl_large_ref", "gen_shl_large", "gen_shr_large"]] + [
-    "Dashu.Props.GenBitsHeap." + n for n in ["gen_with_bit_dword_spilled", "gen_with_bit_large", "gen_clear_high_bits_large"]] + [
+                                              "gen_shl_large_ref", "gen_shl_large", "gen_shr_large", "gen_shr_large_ref",
+                                              "gen_shr_heap_forms"]] + [
+    "Dashu.Props.GenBitsHeap." + n for n in ["gen_with_bit_dword_spilled", "gen_with_bit_large", "gen_clear_high_bits_large",
+                                             "gen_clear_bit_large", "gen_split_bits_large"]] + [
     "Dashu.Props.GenBitOpsHeap." + n for n in ["gen_bitand_large", "gen_bitor_large", "gen_bitxor_large", "gen_and_not_large",
                                                "gen_large_dword", "gen_large_dword_short", "gen_heap_heap_arms"]]
 
@@ -805,8 +806,15 @@ LEVEL_TEXT = ("Machine-checked Lean 4 theorems, for every word size and operand 
               "forms are proved equal to the operator on the converted values (using C06's conversion models) incl. the "
               "no-panic fact of `& -> uN`. Tie A (regenerated on every run, theorems re-checked): the IBig sign tables, the sign "
               "handling of IBig >>, the ten arithmetic helpers of math.rs and the six inline arms taking a usize — the latter two "
-              "over overflow-checking machine integers with truncating casts, for every usize argument. Shift counts / bit positions "
-              "up to usize::MAX are driven through every operation that is cheap there.")
+              "over overflow-checking machine integers with truncating casts, for every usize argument. Round 5 added, as regenerated text "
+              "proved equal to the executed model: all of shift.rs (word loops incl. their direction and carry hand-over), the heap arms "
+              "of << / >> (shl_one_spilled, shl_dword_spilled, shl_large(_ref) for every capacity, shr_large, shr_large_ref with its "
+              "slice-pattern shortcuts), the heap arms of set_bit / clear_high_bits, the word loops of & | ^ and_not (+ the *_dword forms), "
+              "the three trailing scans and are_slice_low_bits_nonzero with CHECKED slice accesses (panics included), the ten "
+              "primitive-operand macro bodies and the sixteen UBig/IBig forwarding bodies (composed with the regenerated sign tables). "
+              "Shift counts / bit positions up to usize::MAX are driven through every operation that is cheap there, and through the "
+              "allocating ones (<<, set_bit, ones) in the two classes that are cheap (zero operand; request above Buffer::MAX_CAPACITY "
+              "-> AllocTooMuch). 571 listed code arms (arm(case)) are all reached by both tiers.")
 LEVEL_NOTE = ("Trusted: Lean kernel; axioms propext/Classical.choice/Quot.sound; the correspondence harness and generators "
               "(sampling) for the tie model<->code; machine-word primitives at their documented contracts; operands assumed "
               "canonical (producer side is C05/C17). Items listed under frontier_kernels are decided by the correspondence "
